@@ -5,6 +5,7 @@ import (
 	"fmt"
 	"iter"
 	"maps"
+	"reflect"
 	"slices"
 
 	"gopkg.in/yaml.v3"
@@ -340,4 +341,30 @@ func copyTree(v any) any {
 	default:
 		return v
 	}
+}
+
+// containsMap reports whether tree contains the map object m itself (by
+// identity, not by value).
+func containsMap(tree any, m map[string]any) bool {
+	switch t := tree.(type) {
+	case map[string]any:
+		if reflect.ValueOf(t).Pointer() == reflect.ValueOf(m).Pointer() {
+			return true
+		}
+
+		for _, v := range t {
+			if containsMap(v, m) {
+				return true
+			}
+		}
+
+	case []any:
+		for _, v := range t {
+			if containsMap(v, m) {
+				return true
+			}
+		}
+	}
+
+	return false
 }
